@@ -68,15 +68,22 @@ def strOk (s : Bytes) : Prop := s.length < 65536
 
 instance (s : Bytes) : Decidable (strOk s) := by unfold strOk; infer_instance
 
+/-- the strings of a stat record fit their length fields -/
+def statStrOk (dotu : Bool) (d : Stat) : Prop :=
+  strOk d.name ∧ strOk d.uid ∧ strOk d.gid ∧ strOk d.muid ∧ (dotu = true → strOk d.ext)
+
+instance (dotu : Bool) (d : Stat) : Decidable (statStrOk dotu d) := by unfold statStrOk; infer_instance
+
+/-- …and the record fits its own size[2] -/
 def statOk (dotu : Bool) (d : Stat) : Prop :=
-  strOk d.name ∧ strOk d.uid ∧ strOk d.gid ∧ strOk d.muid ∧ (dotu = true → strOk d.ext) ∧
-  (stat dotu d).length < 65536
+  statStrOk dotu d ∧ (stat dotu d).length < 65536
 
 instance (dotu : Bool) (d : Stat) : Decidable (statOk dotu d) := by unfold statOk; infer_instance
 
-/-- every length and count fits its wire field, the total fits size[4], and a Twrite's
-    count is the length of its data. -/
-def Rep (dotu : Bool) (m : Msg) : Prop :=
+/-- what decoding needs: every string and count fits its wire field, the total fits
+    size[4], and a Twrite's count is the length of its data.  (The size[2] fields of a
+    stat record are not part of it: go9p's decoder ignores them.) -/
+def RepW (dotu : Bool) (m : Msg) : Prop :=
   7 + (body dotu m).length < 4294967296 ∧
   match m with
   | .tversion _ v | .rversion _ v => strOk v
@@ -86,7 +93,16 @@ def Rep (dotu : Bool) (m : Msg) : Prop :=
   | .rwalk qs => qs.length < 65536
   | .tcreate _ n _ _ e => strOk n ∧ (dotu = true → strOk e)
   | .twrite _ _ c d => c.toNat = d.length
-  | .rstat d | .twstat _ d => statOk dotu d
+  | .rstat d | .twstat _ d => statStrOk dotu d
   | _ => True
+
+/-- "representable on the wire": `RepW`, and a stat record fits its size[2] fields. -/
+def Rep (dotu : Bool) (m : Msg) : Prop :=
+  RepW dotu m ∧
+  match m with
+  | .rstat d | .twstat _ d => (stat dotu d).length + 2 < 65536
+  | _ => True
+
+theorem Rep.w {dotu : Bool} {m : Msg} (h : Rep dotu m) : RepW dotu m := h.1
 
 end G9.Spec
